@@ -166,7 +166,8 @@ def realise(spec, it, st, memo):
         mod = cnode = None
         if spec.cls is not None:
             mod = it.repo.module(spec.cls[0])
-            cnode = it.repo.cls(mod, spec.cls[1])
+            # a checker-side stand-in class (an ast.ClassDef with _vmethods) may be given in place of a class name
+            cnode = spec.cls[1] if isinstance(spec.cls[1], ast.ClassDef) else it.repo.cls(mod, spec.cls[1])
         o = it.new_obj(st, mod, cnode, label="seed", havoc=spec.havoc)
         memo[id(spec)] = o
         memo.setdefault("#keep", []).append(spec)   # keep id(spec) unique while memo lives
